@@ -297,14 +297,14 @@ func (x *run) login() (bool, string, error) {
 	}
 	signIn := r.Header.Get("Location")
 	csrfProxy, _ := r.CookieAfter(w.PW.P.CSRFName, "")
-	if r.Status != 302 || !strings.HasPrefix(signIn, "http://"+authHost+"/") {
+	if !world.IsRedirect(r.Status) || !strings.HasPrefix(signIn, "http://"+authHost+"/") {
 		return false, "", fmt.Errorf("proxy start: %d %q", r.Status, signIn)
 	}
 	if r, err = to("GET", signIn, nil); err != nil || r.Status != 200 {
 		return false, "", fmt.Errorf("sign_in page: %v %d", err, r.Status)
 	}
 	r, err = to("GET", "http://"+authHost+w.A.Path("start")+"?redirect_uri="+url.QueryEscape(signIn), nil)
-	if err != nil || r.Status != 302 {
+	if err != nil || !world.IsRedirect(r.Status) {
 		return false, "", fmt.Errorf("start: %v %d %.100q", err, r.Status, r.Body)
 	}
 	csrfAuth, _ := r.CookieAfter(w.A.CSRFName, "")
@@ -314,11 +314,11 @@ func (x *run) login() (bool, string, error) {
 	}
 	cb := idpURL.Query().Get("redirect_uri") + "?code=" + url.QueryEscape(code) + "&state=" + url.QueryEscape(idpURL.Query().Get("state"))
 	r, err = to("GET", cb, []*http.Cookie{{Name: w.A.CSRFName, Value: csrfAuth}})
-	if err != nil || r.Status != 302 {
+	if err != nil || !world.IsRedirect(r.Status) {
 		return false, "", fmt.Errorf("auth callback: %v %d %.100q", err, r.Status, r.Body)
 	}
 	r, err = to("GET", r.Header.Get("Location"), nil)
-	if err != nil || r.Status != 302 {
+	if err != nil || !world.IsRedirect(r.Status) {
 		return false, "", fmt.Errorf("sign_in with cookie: %v %d %.100q", err, r.Status, r.Body)
 	}
 	r, err = to("GET", r.Header.Get("Location"), []*http.Cookie{{Name: w.PW.P.CSRFName, Value: csrfProxy}})
@@ -326,11 +326,11 @@ func (x *run) login() (bool, string, error) {
 		return false, "", err
 	}
 	v, _ := r.CookieAfter(w.PW.P.CookieName, "")
-	if r.Status == 302 && v != "" {
+	if world.IsRedirect(r.Status) && v != "" {
 		return true, v, nil
 	}
-	if r.Status == 403 && v == "" {
-		return false, "", nil // refused by the upstream's rules
+	if r.Status >= 400 && v == "" {
+		return false, "", nil // refused (which refusing status is the proxy's business)
 	}
 	return false, "", fmt.Errorf("proxy callback: %d %.100q", r.Status, r.Body)
 }
